@@ -171,7 +171,15 @@ def r10_3(ctx):
     ctx.end()
 
 
+def r10_4(ctx):
+    """An individually absent resource stays ABSENCE for the whole step only if the per-step absence update is the last
+    writer of resource state before allocation (shared with C04 R4.4)."""
+    from .C04 import r4_4
+    r4_4(ctx)
+
+
 def run(ctx):
     r10_1(ctx)
     r10_2(ctx)
     r10_3(ctx)
+    r10_4(ctx)
